@@ -183,7 +183,7 @@ def run_shape(shape, tier):
             for i in range(nt):
                 if ("t", i) in inp["flags"]:
                     core.assume(inp["flags"][("t", i)])
-        d = RVData(inp["t_arr"] if nt % 2 else units.Time(inp["t_arr"]), inp["rv_q"], inp["rv_err_q"], t_ref=inp["t_ref"], clean=shape["clean"])
+        d = RVData(inp["t_arr"] if nt % 2 else units.Time(inp["t_arr"], scale="tcb"), inp["rv_q"], inp["rv_err_q"], t_ref=inp["t_ref"], clean=shape["clean"])
         return inp, d
 
     ex = core.Explorer(max_paths=5000)
@@ -297,7 +297,8 @@ def _check_object(sink, path, shape, inp, kept, d, tag, desc):
         sink.check(path, tag + ".t_ref", core.SB(z3.BoolVal(bool(ok))), site="RVData.__init__", describe=desc)
     elif shape["tref"] == "explicit":
         ok = isinstance(d.t_ref, units.Time)
-        cl = z3.And(L(d.t_ref._v) == L(inp["t_ref"]._v), L(d._t_ref_bmjd) == L(inp["t_ref"]._v)) if ok else z3.BoolVal(False)
+        # the explicit epoch is given on the UTC scale: the internal barycentric value is its TCB equivalent
+        cl = z3.And(L(d.t_ref._v) == L(inp["t_ref"]._v), z3.BoolVal(d.t_ref.scale == inp["t_ref"].scale), L(d._t_ref_bmjd) == L(inp["t_ref"].tcb._v)) if ok else z3.BoolVal(False)
         sink.check(path, tag + ".t_ref", core.SB(cl), site="RVData.__init__", describe=desc)
     else:
         ok = isinstance(d.t_ref, units.Time) and len(t_out) > 0
@@ -385,7 +386,7 @@ def _check_same(sink, path, shape, d, c, idxs, tag, desc, check_tref):
             okr = c.t_ref is None and not core.is_sym(c._t_ref_bmjd) and c._t_ref_bmjd == 0
             clr = z3.BoolVal(bool(okr))
         else:
-            clr = z3.And(L(c.t_ref._v) == L(d.t_ref._v), L(c._t_ref_bmjd) == L(d._t_ref_bmjd)) if isinstance(c.t_ref, units.Time) else z3.BoolVal(False)
+            clr = z3.And(L(c.t_ref.tcb._v) == L(d.t_ref.tcb._v), L(c._t_ref_bmjd) == L(d._t_ref_bmjd)) if isinstance(c.t_ref, units.Time) else z3.BoolVal(False)
         sink.check(path, tag + ".t_ref", core.SB(clr), site=site + ".t_ref", describe=desc)
 
 
@@ -427,7 +428,7 @@ def replay(cand):
                     cov[i, j] = np.nan
         err_q = cov * vunit ** 2
     if shape["tref"] == "explicit":
-        t_ref = Time(f(m.get("t_ref", "0")) + 55000.0, format="mjd", scale="tcb")
+        t_ref = Time(f(m.get("t_ref", "0")) + 55000.0, format="mjd", scale="utc")
     elif shape["tref"] == "false":
         t_ref = False
     else:
